@@ -42,6 +42,11 @@ def allowed(site, setters):
         return "Numba typing/lowering internals (C07 is not applicable); not reachable from the interpreted API"
     if fn in CONSUMES_FRESH_ARGUMENT and site["where"].startswith(CONSUMES_FRESH_ARGUMENT[fn][0]):
         return CONSUMES_FRESH_ARGUMENT[fn][1]
+    if site["function"] == "Array" and site["where"].startswith("vector/backends/awkward_constructors.py") and text.startswith("x.behavior = "):
+        return ("vector.Array: `x` ranges over the columns returned by _check_names(akarray, ...), each created by subscripting the ak.Array `akarray[name]`, "
+                "which yields a new high-level ak.Array object per field; rebinding its .behavior attribute does not write the operand (call sites / construction checked below)")
+    if fn == "__array_ufunc__" and text.startswith("output["):
+        return "NumPy ufunc protocol: fills the arrays the caller passed explicitly as out= (writing them is what the caller asked for)"
     if kind == "out-keyword" and fn == "sum":
         return "VectorNumpy.sum forwards the caller's explicit out= argument (NumPy reduction signature): writing it is what the caller asked for"
     return None
@@ -75,6 +80,20 @@ def fresh_call_sites(src_root, ob_check):
                     if isinstance(node, ast.Call) and isinstance(node.func, ast.Name) and node.func.id == helper and len(node.args) > argpos:
                         txt = ast.unparse(node.args[argpos])
                         ob_check(f"static/fresh-argument/{helper}@{f}:{node.lineno}", txt in ok_exprs, f"argument `{txt}` is not a freshly created container")
+
+
+def check_names_columns(src_root, check):
+    """_check_names builds its result list only from subscripts of `projectable` (so, for an ak.Array, from new objects)"""
+    import ast
+    tree = ast.parse(open(os.path.join(src_root, "backends", "awkward_constructors.py")).read())
+    for fn in ast.walk(tree):
+        if isinstance(fn, ast.FunctionDef) and fn.name == "_check_names":
+            for node in ast.walk(fn):
+                if isinstance(node, ast.Call) and isinstance(node.func, ast.Attribute) and node.func.attr in ("append", "extend") and ast.unparse(node.func.value) == "columns":
+                    elems = node.args[0].elts if isinstance(node.args[0], (ast.List, ast.Tuple)) else [node.args[0]]
+                    for e in elems:
+                        ok = isinstance(e, ast.Subscript) and ast.unparse(e.value) == "projectable"
+                        check(f"static/check_names-columns-are-subscripts@{node.lineno}", ok, ast.unparse(e))
 
 
 def object_slots_worker(half):
@@ -147,6 +166,7 @@ def main(argv):
         else:
             F.check("C16", f"static/frame/{s['function']}:{s['text'].split(' = ')[0][:60]}", False, dict(kind=s["kind"], text=s["text"], where=s["where"]))
     fresh_call_sites(src, lambda oid, ok, d=None: F.check("C16", oid, ok, d))
+    check_names_columns(src, lambda oid, ok, d=None: F.check("C16", oid, ok, d))
     # compute functions: no store other than to locals at all (no allow-list applies there)
     ncompute = sum(1 for s in static if s["where"].startswith("vector/_compute"))
     F.check("C16", "static/compute-layer-writes-nothing", ncompute == 0, [s for s in static if s["where"].startswith("vector/_compute")][:5])
